@@ -16,6 +16,15 @@ def isObjKind : Kind → Bool
   | .obj _ => true
   | _ => false
 
+/-- `old_value is value` for leaves: CPython's singletons (None, MISSING_VALUE) and small ints
+are one object each; strings built at run time and fresh objects never are. -/
+def sameAtom (ve : VE) (old : Tree) : Bool :=
+  match ve, old with
+  | .atom .none, .leaf .none => true
+  | .atom .missing, .leaf .missing => true
+  | .atom (.int i), .leaf (.int j) => i == j && decide (-5 ≤ i) && decide (i ≤ 256)
+  | _, _ => false
+
 /-- `List._set_item_without_permission_check` (list.py:397-434).
 `ins`: the value is wrapped in `Insertion`. Returns the new forest and whether a FieldUpdate was
 produced. -/
@@ -37,7 +46,7 @@ def rawSetList (cfg : Cfg) (f : Forest) (m : Meta) (its : Items) (key : Int) (in
     | some old =>
       let same := match ve, old.id? with
         | .ref id, some oid => id == oid
-        | _, _ => ve.isMissing && old.isMissing
+        | _, _ => sameAtom ve old
       if same then .ok (f, false) else
       let r := evalVE cfg f none (some m.id) false m.part (m.path ++ [Key.i index]) ve
       let f2 := r.1.mapAt m.id (fun _ xs => setKey (Key.i pos) r.2 xs)
@@ -64,7 +73,7 @@ def rawSetDict (cfg : Cfg) (f : Forest) (m : Meta) (its : Items) (key : Key) (ve
   let old := getKey its key
   let same := match ve, old.bind Tree.id? with
     | .ref id, some oid => id == oid
-    | _, _ => false
+    | _, _ => (old.map (sameAtom ve)).getD false
   if same then .ok (f, false) else
   -- MISSING_VALUE is a singleton: deleting an absent key is `old_value is value`
   if ve.isMissing && !hasKey its key then .ok (f, false) else
